@@ -22,8 +22,9 @@ import (
 var namesJSON []byte
 
 type fnNames struct {
-	Params []string `json:"params,omitempty"` // "name|type"
-	Locals []string `json:"locals,omitempty"`
+	Params   []string `json:"params,omitempty"` // "name|type"
+	Locals   []string `json:"locals,omitempty"`
+	Closures int      `json:"closures,omitempty"` // number of function literals inside (adopt.go)
 }
 
 var frozenNames map[string]fnNames
@@ -236,7 +237,11 @@ func genNames(w *World) []byte {
 		}
 		// every function is listed (also without parameters and locals): the table is
 		// the inventory of reviewed functions as well (adopt.go)
-		out[fnID(f)] = currentNames(f)
+		n := currentNames(f)
+		if f.Parent() == nil {
+			n.Closures = len(Anons(f)) - 1
+		}
+		out[fnID(f)] = n
 	}
 	b, _ := json.MarshalIndent(out, "", " ")
 	return append(b, '\n')
